@@ -191,6 +191,12 @@ _term = (parts(ch('worker-termination', 'harness.c03', 'h_termination', 'termina
                   'exit with the handler status', timeout=(300, 1500)), 8)
          + parts(twin('worker-termination', 'harness.c03', 'h_termination_twin', 'a run in which the signal is delivered exists'), 8))
 
+
+# C11, worker side of "workers that exit with the clean or recycle status never consume budget": the status a leaving worker announced
+# with its DEATH notice (which the parent answers with TERM) is the status it exits with, whenever that TERM arrives
+SPECS['C11']['obligations'] = list(SPECS['C11']['obligations']) + [dict(o, what='worker side: ' + o['what']) for o in _term]
+SPECS['C11']['functions'] = list(SPECS['C11']['functions']) + ['billiard.pool.Worker._do_exit', 'Worker.__call__', 'billiard.common._shutdown_cleanup']
+
 SPECS['C05'] = dict(
     level='other',
     explanation='Solver-based: CrossHair executes the real TimeoutHandler scan / hard-timeout / kill code and the real supervision code '
